@@ -85,6 +85,8 @@ def classify_diff(diff):
         return "member-dropped"
     if isinstance(a, str) and isinstance(b, str) and TS.match(a) and TS.match(b):
         return "date-time-reformatted"
+    if isinstance(a, list) and isinstance(b, str):
+        return "uint8-array-printed-as-base64-string"
     if a is None and b is not None:
         return "null-replaced-by-zero-value"
     if a in ([], {}) and b is None:
